@@ -145,6 +145,20 @@ func (p *ProcO) Order() int { return p.O }
 
 type ProcN struct{ procBase }
 
+// lazily initialised processors (the container takes them as registered instead of creating
+// them through the factory)
+type ProcPZ struct{ ProcP }
+
+func (*ProcPZ) LazyInit() {}
+
+type ProcOZ struct{ ProcO }
+
+func (*ProcOZ) LazyInit() {}
+
+type ProcNZ struct{ ProcN }
+
+func (*ProcNZ) LazyInit() {}
+
 // Plain sortable elements for the direct check of the sorting helper.
 type ElemP struct{ Part }
 
